@@ -173,6 +173,33 @@ def run_driver(lines, obs):
     return out
 
 
+def run_driver_parallel(lines, obs, workers=12):
+    """decsweep lines are context-free and slow on the model side: run them on several driver
+    processes; everything else keeps its order in one process"""
+    from concurrent.futures import ThreadPoolExecutor
+    idx = [i for i, l in enumerate(lines) if l.startswith("decsweep ")]
+    if len(idx) < 2:
+        return run_driver(lines, obs)
+    rest = [i for i in range(len(lines)) if not lines[i].startswith("decsweep ")]
+    out = [None] * len(lines)
+    chunks = [idx[k::workers] for k in range(workers)]
+    chunks = [c for c in chunks if c]
+
+    def job(c):
+        return c, run_driver([lines[i] for i in c], [None for _ in c])
+    with ThreadPoolExecutor(max_workers=len(chunks) + 1) as ex:
+        futs = [ex.submit(job, c) for c in chunks]
+        if rest:
+            rr = run_driver([lines[i] for i in rest], [obs[i] for i in rest])
+            for i, a in zip(rest, rr):
+                out[i] = a
+        for f in futs:
+            c, ans = f.result()
+            for i, a in zip(c, ans):
+                out[i] = a
+    return out
+
+
 def parse_answer(a):
     """-> (model_obs, impl_verdicts, model_verdicts)"""
     if " ## " not in a:
@@ -328,8 +355,8 @@ def evaluate(lines):
     """run ops on both sides -> list of (impl_obs, model_obs, iverdicts, mverdicts)"""
     obs = run_exec(lines)
     # `lensweep` is an executor-only bulk op (C17 thorough): the driver is given a no-op instead
-    ans = run_driver([("conv cmd 00" if l.startswith("lensweep ") else l) for l in lines],
-                     [(None if l.startswith("lensweep ") else o) for l, o in zip(lines, obs)])
+    ans = run_driver_parallel([("conv cmd 00" if l.startswith("lensweep ") else l) for l in lines],
+                              [(None if (l.startswith("lensweep ") or "sweep " in l[:10]) else o) for l, o in zip(lines, obs)])
     out = []
     _addr.clear()
     for l, o, a in zip(lines, obs, ans):
@@ -337,6 +364,10 @@ def evaluate(lines):
         k = l.split()[0] if l.split() else ""
         if k == "ctx":
             _addr[l.split()[1]] = int(l.split()[2], 16)
+        if k in ("decsweep", "procsweep"):
+            # digest of 65 536 observations on each side; equal digests = every observation equal
+            out.append((o, a, {"*sweep": "agree" if o == a else "differ"}, {}))
+            continue
         if k == "lensweep":
             t = o.split()
             good = len(t) == 4 and t[0] == "ok" and t[1] == "65536" and t[2] == "0"
@@ -664,6 +695,51 @@ def check_property(prop, tier, seed, max_search=20000):
         write_evidence(res)
         return res
 
+    # 3b. sweeps whose digests differ are expanded into their 65 536 individual cases
+    sweep_cases = 0
+    expand = []
+    for l, (o, m, iv, mv) in zip(lines, results):
+        if iv.get("*sweep") == "agree":
+            sweep_cases += 65536
+        elif iv.get("*sweep") == "differ":
+            expand.append(l)
+    if expand:
+        ex_lines = []
+        for l in expand[:3]:
+            t = l.split()
+            if t[0] == "decsweep":
+                pk, i, j, fix = bytearray.fromhex(t[1]), int(t[2]), int(t[3]), t[4] == "fix"
+                for a in range(256):
+                    for b in range(256):
+                        q = bytearray(pk)
+                        if i < len(q):
+                            q[i] = a
+                        if j < len(q):
+                            q[j] = b
+                        if fix and q:
+                            q[-1] = gen.crc8(q[:-1])
+                        ex_lines.append("dec " + gen.hx(q))
+            else:
+                cid, pk, i, j, buf = t[1], bytearray.fromhex(t[2]), int(t[3]), int(t[4]), t[5]
+                ex_lines += history_for(lines, lines.index(l))[:-1]
+                for a in range(256):
+                    for b in range(256):
+                        q = bytearray(pk)
+                        if i < len(q):
+                            q[i] = a
+                        if j < len(q):
+                            q[j] = b
+                        if q:
+                            q[-1] = gen.crc8(q[:-1])
+                        ex_lines.append("proc %s %s %s" % (cid, gen.hx(q), buf))
+        try:
+            r3 = evaluate(ex_lines)
+            lines = lines + ex_lines
+            fams = fams + ["sweep-expanded"] * len(ex_lines)
+            results = results + r3
+        except RuntimeError as e:
+            res.notes.append("sweep expansion failed to run: %s" % e)
+
     # 4. classify
     n_eval = 0
     distinct = set()
@@ -676,6 +752,12 @@ def check_property(prop, tier, seed, max_search=20000):
     for i, (l, (o, m, iv, mv)) in enumerate(zip(lines, results)):
         kind = l.split()[0]
         if kind == "ctx":
+            continue
+        if "*sweep" in iv:
+            if iv["*sweep"] == "differ":
+                corr_break += 1
+                if len(search_seeds) < 12 and not any(x.startswith("sweep-expanded") for x in fams[-1:]):
+                    pass
             continue
         relevant = (prop in iv) or (prop in mv) or kind in ("view", "conv", "new", "hdr") or iv.get("*") == "unparsed"
         if kind in ("seteid", "setuuid") and prop != "C13":
@@ -713,6 +795,12 @@ def check_property(prop, tier, seed, max_search=20000):
                     ops = minimise(prop, ops, known)
                 p = write_replay(prop, "spec-violation", ops, len(ops) - 1, o, m, v, {"family": fams[i]})
                 violation(p)
+            continue
+        if mv.get(prop, "").startswith("known:") and not v.startswith("known"):
+            fid = mv[prop].split(":", 1)[1]
+            if ("repaired", fid) not in reported:
+                reported.add(("repaired", fid))
+                res.notes.append("NOTE: finding %s no longer reproduces (e.g. %s): nothing is claimed on that class" % (fid, l[:120]))
             continue
         if project(prop, l, o) != project(prop, l, m):
             corr_break += 1
@@ -799,7 +887,8 @@ def check_property(prop, tier, seed, max_search=20000):
             res.notes.append("NOTE: finding %s did not reproduce in this run" % fid)
 
     cov.update({
-        "evaluations": n_eval,
+        "evaluations": n_eval + sweep_cases,
+        "sweep_cases_digest_compared": sweep_cases,
         "distinct_nontrivial": len(distinct),
         "rule": "systematic families first, random second (one PRNG, seed above); a case is an op line (with its context "
                 "history for stateful ops); non-trivial = the model does more than reject it at the transport/body header; "
